@@ -65,6 +65,10 @@ type c19Scenario struct {
 	Files       int
 	Seed        int
 	Procs       int
+	// directed replay: the order of the processor callbacks TLC chose, the stdout of the reference run, the model's terminal state
+	Schedule  [][2]int
+	RefStdout string
+	Model     *modelOrder
 }
 
 func buildPipelineCase(sc c19Scenario, exit int, timedOut bool, stderr string, evs []hookEvent) map[string]any {
@@ -163,6 +167,10 @@ func runC19(c *core.Ctx, bin, root string, sc c19Scenario) map[string]any {
 	rootFile := sc.Layout.Write(dir)
 	trace := filepath.Join(dir, "trace.ndjson")
 	env := []string{"VERIF_TRACE=" + trace, fmt.Sprintf("VERIF_SCHED_SEED=%d", sc.Seed), fmt.Sprintf("GOMAXPROCS=%d", sc.Procs), "GORACE=exitcode=0 halt_on_error=0"}
+	if sc.Schedule != nil {
+		b, _ := json.Marshal(sc.Schedule)
+		env = append(env, "VERIF_SCHEDULE="+string(b), "VERIF_GATE_TIMEOUT_MS=4000")
+	}
 	r := core.Run(core.RunOpts{Dir: dir, Timeout: 60 * time.Second, Env: env}, bin, append(append([]string{}, sc.Cmd...), rootFile)...)
 	evs, err := readHookTrace(trace)
 	if err != nil && !r.TimedOut {
@@ -170,6 +178,31 @@ func runC19(c *core.Ctx, bin, root string, sc c19Scenario) map[string]any {
 	}
 	cs := buildPipelineCase(sc, r.Exit, r.TimedOut, r.Stderr, evs)
 	cs["stderr"] = tailStr(r.Stderr, 3000)
+	forced := map[string]any{"on": sc.Schedule != nil, "abandoned": false, "followed": true, "sameOut": true}
+	if sc.Variant == "replay-ref" {
+		cs["stdout"] = r.Stdout
+	}
+	if sc.Schedule != nil {
+		got, abandoned := realisedOrder(evs)
+		forced["abandoned"] = abandoned
+		// a failure-free run performs exactly the scheduled steps; after a failure the real stages may start
+		// days the model's behaviour did not (they run once the schedule is exhausted): the schedule is a prefix
+		// (and a stage that sees the cancellation earlier than in the model's behaviour never arrives at its
+		// scheduled step: the run then ends inside the schedule)
+		ok := sc.ExpectFail || len(got) == len(sc.Schedule)
+		for k := 0; ok && k < len(sc.Schedule) && k < len(got); k++ {
+			ok = got[k] == sc.Schedule[k]
+		}
+		forced["followed"] = ok
+		if sc.ExpectFail {
+			forced["sameOut"] = r.Exit != 0 && r.Stdout == ""
+		} else {
+			forced["sameOut"] = r.Exit == 0 && r.Stdout == sc.RefStdout
+		}
+		cs["schedule"] = fmt.Sprint(sc.Schedule)
+		cs["realised"] = fmt.Sprint(got)
+	}
+	cs["forced"] = forced
 	cs["stepsOK"], cs["steps"] = true, ""
 	cs["loadOK"], cs["loadWhy"] = true, ""
 	return cs
@@ -179,6 +212,11 @@ func runC19(c *core.Ctx, bin, root string, sc c19Scenario) map[string]any {
 func stepRunsOf(cs map[string]any) []stepRun {
 	var out []stepRun
 	if cs["timedOut"] == true {
+		return nil
+	}
+	if f, _ := cs["forced"].(map[string]any); f != nil && f["on"] == true && f["followed"] == true && f["abandoned"] != true && cs["expectFail"] != true && cs["exit"] == 0 {
+		// a failure-free run that followed its schedule performed exactly an order that TLC generated from
+		// Pipeline.tla, with the model's result: it is a behaviour by construction
 		return nil
 	}
 	for i, r := range cs["runs"].([]any) {
@@ -353,9 +391,34 @@ func C19(c *core.Ctx) {
 				Seed: int(c.Seed)*1000 + id, Procs: []int{16, 16, 8, 16}[s%4]})
 		}
 	}
+	// directed replay: every order of the processor callbacks that Pipeline.tla allows, forced on the real pipeline
+	t0 := time.Now()
+	phase := func(name string) {
+		c.Set("seconds_"+name, int(time.Since(t0).Seconds()))
+		t0 = time.Now()
+	}
+	forcedScs := replayScenarios(c, rng, bin, root, &id)
+	phase("replay_generation")
+	scs = append(scs, forcedScs...)
 	cases := make([]map[string]any, len(scs))
 	core.Parallel(len(scs), func(i int) { cases[i] = runC19(c, bin, root, scs[i]) })
+	nAb, nForced := 0, 0
+	for _, cs := range cases {
+		if f := cs["forced"].(map[string]any); f["on"] == true {
+			nForced++
+			if f["abandoned"] == true {
+				nAb++
+			}
+		}
+	}
+	c.Add("forced_schedules_replayed", nForced)
+	c.Add("forced_schedules_abandoned", nAb)
+	if nForced > 0 && nAb*5 > nForced {
+		c.Infra("directed replay: %d of %d forced schedules were abandoned (a scheduled step did not arrive within the gate timeout)", nAb, nForced)
+	}
+	phase("runs")
 	c.Add("process_calls_validated_step_by_step", applySteps(c, cases))
+	phase("step_validation")
 	// keep a copy of one eligible load for the non-vacuity test below (applyLoadSteps consumes the records)
 	var sampleLoad map[string]any
 	for _, cs := range cases {
@@ -365,6 +428,7 @@ func C19(c *core.Ctx) {
 		}
 	}
 	c.Add("loads_validated_step_by_step", applyLoadSteps(c, cases))
+	phase("load_validation")
 	if sampleLoad != nil {
 		mutLoad := func(f func(ev []any) ([]any, bool)) map[string]any {
 			ev, ok := f(append([]any(nil), sampleLoad["ev"].([]any)...))
